@@ -29,14 +29,14 @@ pub fn def() -> PropDef {
     PropDef {
         id: "C11",
         level: "model_checking",
-        rule: "explicit-state search over two real LiveActors (never run; driven through their own handlers) sharing a document: events {Trigger(node, NewNeighbor|SyncReport|DirectJoin) -> sync_with_peer (an approved dial is logged instead of being spawned), Deliver(dial) -> the acceptor's accept_sync_request, Lose(dial), for a declined dial the two independent completions (RemoteAbort at the initiator, AcceptError::Abort at the acceptor), for an accepted dial InitiatorDone(ok|fail) and AcceptorDone(ok|fail) in any order; Resync dials emitted by the handlers are captured from the dial log}, up to N dials; invariants S1 (at most one accepted dial with both ends unfinished), S2 (crossing dials: exactly one Allow and one Reject(AlreadySyncing)), S3 (a refused sync report leads to exactly one follow-up dial at the end of the busy period, never a spurious one), S4 (in every quiescent state both nodes are Idle for the pair and will dial and accept), S5 (a document outside the sync set is declined NotFound); canonical state = both coordination snapshots + multiset of in-flight dials and pending completions; non-trivial = histories with a declined, lost or failed dial or two dials in flight at once",
+        rule: "explicit-state search over two real LiveActors (never run; driven through their own handlers) sharing a document: events {Trigger(node, NewNeighbor|SyncReport|DirectJoin) -> sync_with_peer (an approved dial is logged instead of being spawned), Deliver(dial) -> the acceptor's accept_sync_request, Lose(dial), for a declined dial the two independent completions (RemoteAbort at the initiator, AcceptError::Abort at the acceptor), for an accepted dial InitiatorDone(ok|fail) and AcceptorDone(ok|fail) in any order; Leave(node) (the coordination part of leaving the document; at most one per history and final within it); Resync dials emitted by the handlers are captured from the dial log}, up to N dials; invariants S1 (at most one accepted dial with both ends unfinished), S2 (crossing dials: exactly one Allow and one Reject(AlreadySyncing)), S3 (a refused sync report leads to exactly one follow-up dial at the end of the busy period, never a spurious one), S4 (in every quiescent state both nodes are Idle for the pair and will dial and accept), S5 (a document outside the sync set — never joined, or left, whatever completions of older sessions arrive afterwards — is declined NotFound and not dialed); canonical state = both coordination snapshots + multiset of in-flight dials and pending completions; non-trivial = histories with a declined, lost or failed dial or two dials in flight at once",
         assumptions: &[
             "the handlers read nothing but the coordination state (no subscribers, no downloads queued), which is why merging on the snapshot preserves futures",
             "network behaviour is abstracted as: a dial is delivered or lost; the two ends of a session complete independently, successfully or not",
         ],
         bound: |t| match t {
-            Tier::Quick => json!({"dials": 3, "trigger_reasons": ["NewNeighbor", "SyncReport", "DirectJoin"]}),
-            Tier::Thorough => json!({"dials": 4, "trigger_reasons": ["NewNeighbor", "SyncReport", "DirectJoin"]}),
+            Tier::Quick => json!({"searches": ["3 dials, no leave", "3 dials, one leave"], "trigger_reasons": ["NewNeighbor", "SyncReport", "DirectJoin"]}),
+            Tier::Thorough => json!({"searches": ["4 dials, no leave", "4 dials, one leave"], "trigger_reasons": ["NewNeighbor", "SyncReport", "DirectJoin"]}),
         },
         run,
         replay,
@@ -68,6 +68,10 @@ pub enum Ev {
     Lose(usize),
     InitDone(usize, bool),
     AccDone(usize, bool),
+    /// the node stops syncing the document (coordination part of `leave`)
+    Leave(u8),
+    /// the node syncs the document again (coordination part of `start_sync`)
+    Join(u8),
 }
 
 #[derive(Debug, Clone, PartialEq, Eq, PartialOrd, Ord)]
@@ -96,6 +100,10 @@ struct Dial {
     /// decision taken at delivery
     decision: Option<bool>,
     decided_at: u32,
+    /// leave/join epoch of the initiator when the dial was approved, of the acceptor when it
+    /// was accepted
+    epoch_init: u32,
+    epoch_acc: u32,
 }
 
 impl Dial {
@@ -209,7 +217,9 @@ fn with_pair<T>(f: impl FnOnce(&mut Pair) -> T) -> T {
 fn reset(pair: &mut Pair) {
     set_dial_log(true);
     for n in pair.nodes.iter_mut() {
-        n.actor.verif_reset_coordination(&ns());
+        // also undoes a Leave of the previous history
+        n.actor.verif_state_leave(&ns());
+        n.actor.verif_state_join(ns());
     }
     let _ = take_dials();
 }
@@ -263,18 +273,25 @@ struct Model {
     current: [Option<Activity>; 2],
     /// a sync report was refused while this activity was the node's current one
     flagged: [Option<Activity>; 2],
+    /// is the document in the node's sync set
+    joined: [bool; 2],
+    /// incremented at every leave: completions of dials from an earlier epoch are stale
+    epoch: [u32; 2],
+    leaves: u32,
 }
 
 impl Model {
     fn busy(&self, n: u8) -> bool {
+        let e = self.epoch[n as usize];
         self.dials.iter().any(|d| {
-            (d.from == n && d.initiator_busy()) || (d.from != n && d.acceptor_busy())
+            (d.from == n && d.initiator_busy() && d.epoch_init == e)
+                || (d.from != n && d.acceptor_busy() && d.epoch_acc == e)
         })
     }
 }
 
 /// Execute a history. Returns None if the last event is not enabled.
-fn exec(hist: &[Ev], max_dials: usize) -> Option<(Bad, String, String, Vec<Ev>)> {
+fn exec(hist: &[Ev], max_dials: usize, max_leaves: u32) -> Option<(Bad, String, String, Vec<Ev>)> {
     with_pair(|pair| {
         reset(pair);
         let ids = [pair.nodes[0].id, pair.nodes[1].id];
@@ -283,6 +300,9 @@ fn exec(hist: &[Ev], max_dials: usize) -> Option<(Bad, String, String, Vec<Ev>)>
             completions: 0,
             current: [None; 2],
             flagged: [None; 2],
+            joined: [true; 2],
+            epoch: [0; 2],
+            leaves: 0,
         };
         let mut bad: Bad = vec![];
         let mut observed = String::new();
@@ -304,6 +324,16 @@ fn exec(hist: &[Ev], max_dials: usize) -> Option<(Bad, String, String, Vec<Ev>)>
                     let dials = take_dials();
                     observed = format!("Trigger({n},{reason:?})->{}", if dials.is_empty() { "refused" } else { "dial" });
                     match dials.len() {
+                        0 if !m.joined[n as usize] => {
+                            // a node that left the document must not dial for it
+                        }
+                        _ if !m.joined[n as usize] => {
+                            step_bad.push((
+                                "S5_left_document_is_not_dialed",
+                                json!({}),
+                                format!("node {n} dialed for a document it has left"),
+                            ));
+                        }
                         0 => {
                             if !was_busy {
                                 step_bad.push((
@@ -328,6 +358,8 @@ fn exec(hist: &[Ev], max_dials: usize) -> Option<(Bad, String, String, Vec<Ev>)>
                                 approved_at: m.completions,
                                 decision: None,
                                 decided_at: 0,
+                                epoch_init: m.epoch[n as usize],
+                                epoch_acc: 0,
                             });
                             m.current[n as usize] = Some((m.dials.len() - 1, false));
                             // a fresh dial fetches the news itself
@@ -348,9 +380,11 @@ fn exec(hist: &[Ev], max_dials: usize) -> Option<(Bad, String, String, Vec<Ev>)>
                     observed = format!("Deliver({d})->{outcome:?}");
                     let allow = matches!(outcome, AcceptOutcome::Allow);
                     // S2: crossing dials
-                    if let Some(other) = m.dials.iter().find(|o| {
+                    if let Some(other) = m.dials.iter().filter(|_| m.joined[0] && m.joined[1]).find(|o| {
                         o.from == acc
                             && o.decision.is_some()
+                            && o.epoch_init == m.epoch[acc as usize]
+                            && dial.epoch_init == m.epoch[dial.from as usize]
                             && o.approved_at == m.completions
                             && dial.approved_at == m.completions
                     }) {
@@ -368,10 +402,29 @@ fn exec(hist: &[Ev], max_dials: usize) -> Option<(Bad, String, String, Vec<Ev>)>
                             ));
                         }
                     }
+                    if !m.joined[acc as usize] {
+                        if !matches!(outcome, AcceptOutcome::Reject(AbortReason::NotFound)) {
+                            step_bad.push((
+                                "S5_left_document_not_found",
+                                json!({"answer": format!("{outcome:?}")}),
+                                format!("node {acc} has left the document but answered {outcome:?} to a request for it"),
+                            ));
+                        }
+                    }
+                    let joined_acc = m.joined[acc as usize];
+                    let epoch_acc = m.epoch[acc as usize];
                     let dm = &mut m.dials[d];
                     dm.decision = Some(allow);
                     dm.decided_at = m.completions;
+                    dm.epoch_acc = epoch_acc;
                     match outcome {
+                        AcceptOutcome::Reject(AbortReason::NotFound) if !joined_acc => {
+                            dm.state = DialState::Declined {
+                                reason: 0,
+                                init_pending: true,
+                                acc_pending: true,
+                            };
+                        }
                         AcceptOutcome::Allow => {
                             dm.state = DialState::Accepted {
                                 init_pending: true,
@@ -412,6 +465,29 @@ fn exec(hist: &[Ev], max_dials: usize) -> Option<(Bad, String, String, Vec<Ev>)>
                     }
                     dial.state = DialState::Lost;
                     observed = format!("Lose({d})");
+                }
+                Ev::Leave(n) => {
+                    if !m.joined[n as usize] || m.leaves >= max_leaves {
+                        return None;
+                    }
+                    pair.nodes[n as usize].actor.verif_state_leave(&ns());
+                    m.joined[n as usize] = false;
+                    m.epoch[n as usize] += 1;
+                    m.leaves += 1;
+                    m.current[n as usize] = None;
+                    m.flagged[n as usize] = None;
+                    observed = format!("Leave({n})");
+                }
+                Ev::Join(n) => {
+                    // Re-joining while dials of the previous membership are still in flight is
+                    // outside the quantifier of the property (see DESIGN C11); leaving is final
+                    // within a history.
+                    if m.joined[n as usize] || true {
+                        return None;
+                    }
+                    pair.nodes[n as usize].actor.verif_state_join(ns());
+                    m.joined[n as usize] = true;
+                    observed = format!("Join({n})");
                 }
                 Ev::InitDone(d, ok) => {
                     let dial = m.dials.get(d)?.clone();
@@ -532,7 +608,8 @@ fn exec(hist: &[Ev], max_dials: usize) -> Option<(Bad, String, String, Vec<Ev>)>
                 // a declined request is no activity of the acceptor at all
                 let acceptor_of_declined = as_acceptor && matches!(m.dials[d].state, DialState::Declined { .. });
                 let declined_busy = !as_acceptor && matches!(m.dials[d].state, DialState::Declined { reason: 1, .. });
-                let is_current = m.current[n as usize] == Some(activity);
+                let dial_epoch = if as_acceptor { m.dials[d].epoch_acc } else { m.dials[d].epoch_init };
+                let is_current = m.current[n as usize] == Some(activity) && dial_epoch == m.epoch[n as usize];
                 let flagged = m.flagged[n as usize] == Some(activity);
                 let resyncs: Vec<_> = new.iter().filter(|(me, _, _, r)| *me == ids[n as usize] && *r == SyncReason::Resync).collect();
                 if new.len() != resyncs.len() {
@@ -583,6 +660,8 @@ fn exec(hist: &[Ev], max_dials: usize) -> Option<(Bad, String, String, Vec<Ev>)>
                             approved_at: m.completions,
                             decision: None,
                             decided_at: 0,
+                            epoch_init: m.epoch[n as usize],
+                            epoch_acc: 0,
                         });
                         m.current[n as usize] = Some((m.dials.len() - 1, false));
                         m.flagged[n as usize] = None;
@@ -601,6 +680,18 @@ fn exec(hist: &[Ev], max_dials: usize) -> Option<(Bad, String, String, Vec<Ev>)>
                     json!({}),
                     format!("{running} accepted sessions with both ends unfinished"),
                 ));
+            }
+            // S5: the document is in the node's sync set iff the node has not left it — whatever
+            // completions of older sessions arrive afterwards
+            for n in 0..2u8 {
+                let s = pair.nodes[n as usize].actor.verif_snapshot(&ns(), &ids[1 - n as usize]);
+                if s.syncing != m.joined[n as usize] {
+                    step_bad.push((
+                        "S5_sync_set_membership",
+                        json!({"resurrected_after_leave": s.syncing}),
+                        format!("node {n}: document in sync set = {}, but the node has {} it (after {observed})", s.syncing, if m.joined[n as usize] { "joined" } else { "left" }),
+                    ));
+                }
             }
             // S4: quiescent => idle
             if m.dials.iter().all(|d| !d.live()) {
@@ -634,11 +725,14 @@ fn exec(hist: &[Ev], max_dials: usize) -> Option<(Bad, String, String, Vec<Ev>)>
             .dials
             .iter()
             .filter(|d| d.live())
-            .map(|d| format!("{}:{:?}:{:?}", d.from, d.reason, d.state))
+            .map(|d| format!("{}:{:?}:{:?}:{}{}", d.from, d.reason, d.state, d.epoch_init == m.epoch[d.from as usize], d.epoch_acc == m.epoch[1 - d.from as usize]))
             .collect();
         live.sort();
         let key = format!(
-            "{}|{}|{:?}|n{}|{:?}",
+            "{:?}{:?}{}|{}|{}|{:?}|n{}|{:?}",
+            m.joined,
+            snaps.iter().map(|s| s.syncing).collect::<Vec<_>>(),
+            m.leaves,
             show_snap(&snaps[0]),
             show_snap(&snaps[1]),
             live,
@@ -656,8 +750,19 @@ fn exec(hist: &[Ev], max_dials: usize) -> Option<(Bad, String, String, Vec<Ev>)>
                 bad.push(("S5_unsynced_document_not_found", json!({}), format!("node {n}: {o:?}")));
             }
         }
+        for n in 0..2usize {
+            if !m.joined[n] {
+                let o = pair.nodes[n].actor.accept_sync_request(ns(), ids[1 - n]);
+                if !matches!(o, AcceptOutcome::Reject(AbortReason::NotFound)) {
+                    bad.push(("S5_left_document_not_found", json!({"answer": format!("{o:?}")}), format!("node {n} has left the document but answers {o:?}")));
+                }
+            }
+        }
         if quiescent {
             for n in 0..2usize {
+                if !m.joined[n] {
+                    continue;
+                }
                 let o = pair.nodes[n].actor.accept_sync_request(ns(), ids[1 - n]);
                 if !matches!(o, AcceptOutcome::Allow) {
                     bad.push((
@@ -675,6 +780,11 @@ fn exec(hist: &[Ev], max_dials: usize) -> Option<(Bad, String, String, Vec<Ev>)>
                 for r in [Reason::NewNeighbor, Reason::SyncReport, Reason::DirectJoin] {
                     enabled.push(Ev::Trigger(n, r));
                 }
+            }
+        }
+        for n in 0..2u8 {
+            if m.joined[n as usize] && m.leaves < max_leaves {
+                enabled.push(Ev::Leave(n));
             }
         }
         for (d, dial) in m.dials.iter().enumerate() {
@@ -722,6 +832,9 @@ fn events(max_dials: usize, all_reasons: bool) -> Vec<Ev> {
             v.push(Ev::Trigger(n, *r));
         }
     }
+    for n in 0..2u8 {
+        v.push(Ev::Leave(n));
+    }
     for d in 0..max_dials + 2 {
         v.push(Ev::Deliver(d));
         v.push(Ev::Lose(d));
@@ -735,49 +848,60 @@ fn events(max_dials: usize, all_reasons: bool) -> Vec<Ev> {
 
 fn run(ctx: &Ctx, report: &mut Report) {
     crate::util::silence_panics();
-    let max_dials = if ctx.quick() { 3 } else { 4 };
-    let evs = events(max_dials, true);
-    report.fact("events", json!(evs.len()));
-    let depth = 4 * max_dials + 2;
-    let mut evals = 0u64;
-    let mut nt = 0u64;
-    bfs(ctx, report, &evs, depth, 2, |h, report, ordinal| {
-        let res = catch(|| exec(h, max_dials));
-        let case = json!({"hist": h, "max_dials": max_dials});
-        match res {
-            Err(p) => {
-                report.violation("no_panic", json!({}), case, format!("panic: {p}"), ordinal);
-                // the pair may be in an arbitrary state; leak it and build a fresh one
-                PAIR.with(|p| std::mem::forget(p.borrow_mut().take()));
-                None
+    // (dials, leaves): the second search adds "a node leaves the document" with one dial less
+    let searches: Vec<(usize, u32)> = if ctx.quick() {
+        vec![(3, 0), (3, 1)]
+    } else {
+        vec![(4, 0), (4, 1)]
+    };
+    for (max_dials, max_leaves) in searches {
+        let t0 = std::time::Instant::now();
+        let evs = events(max_dials, true);
+        report.fact(&format!("events_{max_dials}_dials_{max_leaves}_leaves"), json!(evs.len()));
+        let depth = 4 * max_dials + 2 + max_leaves as usize;
+        let mut evals = 0u64;
+        let mut nt = 0u64;
+        bfs(ctx, report, &evs, depth, 2, |h, report, ordinal| {
+            let res = catch(|| exec(h, max_dials, max_leaves));
+            let case = json!({"hist": h, "max_dials": max_dials, "max_leaves": max_leaves});
+            match res {
+                Err(p) => {
+                    report.violation("no_panic", json!({}), case, format!("panic: {p}"), ordinal);
+                    // the pair may be in an arbitrary state; leak it and build a fresh one
+                    PAIR.with(|p| std::mem::forget(p.borrow_mut().take()));
+                    None
+                }
+                Ok(None) => None,
+                Ok(Some((bad, key, observed, enabled))) => {
+                    evals += 1;
+                    let mask: Vec<bool> = evs.iter().map(|e| enabled.contains(e)).collect();
+                    let nontrivial = h.iter().any(|e| matches!(e, Ev::Lose(_) | Ev::InitDone(_, false) | Ev::AccDone(_, false) | Ev::Leave(_)))
+                        || h.windows(2).any(|w| matches!((w[0], w[1]), (Ev::Trigger(a, _), Ev::Trigger(b, _)) if a != b));
+                    if nontrivial {
+                        nt += 1;
+                    }
+                    for (o, w, d) in bad {
+                        report.violation(o, w, case.clone(), d, ordinal);
+                    }
+                    if nontrivial && h.len() >= 5 {
+                        report.sample(|| json!({"history": h.iter().map(|e| format!("{e:?}")).collect::<Vec<_>>(), "state": key}));
+                    }
+                    Some(BfsOutcome { key, observed, enabled: Some(mask) })
+                }
             }
-            Ok(None) => None,
-            Ok(Some((bad, key, observed, enabled))) => {
-                evals += 1;
-                let mask: Vec<bool> = evs.iter().map(|e| enabled.contains(e)).collect();
-                let nontrivial = h.iter().any(|e| matches!(e, Ev::Lose(_) | Ev::InitDone(_, false) | Ev::AccDone(_, false)))
-                    || h.windows(2).any(|w| matches!((w[0], w[1]), (Ev::Trigger(a, _), Ev::Trigger(b, _)) if a != b));
-                if nontrivial {
-                    nt += 1;
-                }
-                for (o, w, d) in bad {
-                    report.violation(o, w, case.clone(), d, ordinal);
-                }
-                if nontrivial && h.len() >= 5 {
-                    report.sample(|| json!({"history": h.iter().map(|e| format!("{e:?}")).collect::<Vec<_>>(), "state": key}));
-                }
-                Some(BfsOutcome { key, observed, enabled: Some(mask) })
-            }
-        }
-    });
-    report.evaluations += evals;
-    report.nontrivial += nt;
+        });
+        report.evaluations += evals;
+        report.nontrivial += nt;
+        report.maximum(&format!("slowest_worker_ms_{max_dials}_dials_{max_leaves}_leaves"), t0.elapsed().as_millis() as u64);
+        report.count(&format!("worker_ms_sum_{max_dials}_dials_{max_leaves}_leaves"), t0.elapsed().as_millis() as u64);
+    }
 }
 
 fn replay(case: &Value) -> anyhow::Result<(bool, String)> {
     let hist: Vec<Ev> = serde_json::from_value(case["hist"].clone())?;
     let max_dials = case["max_dials"].as_u64().unwrap_or(5) as usize;
-    match catch(|| exec(&hist, max_dials)) {
+    let max_leaves = case["max_leaves"].as_u64().unwrap_or(1) as u32;
+    match catch(|| exec(&hist, max_dials, max_leaves)) {
         Err(p) => Ok((true, format!("panic: {p}"))),
         Ok(None) => Ok((false, "history not enabled".into())),
         Ok(Some((bad, key, observed, _))) => {
